@@ -13,7 +13,8 @@ RULE = ('cases = (input string, configuration); exhaustive strings up to the bou
         'deletion / insertion / swap of generated valid abbreviations; random strings <= 40; all 16 syntaxes and option sets with '
         'BEM, comments, JSX, wrap text (string / list / empty), contexts, maxRepeat. Non-trivial = the call raised a parse error or '
         'returned a non-empty string; distinct by (config name, input)')
-ASSUMPTIONS = ['custom snippets in configurations are valid, so an error position always refers to the input',
+ASSUMPTIONS = ['custom snippets of the configurations parse (a user table with empty alternatives, a bare colon, blanks ... is still a table: the sloppy-user-snippets configuration); an error position always refers to the input',
+               'callbacks of the strict-callbacks configurations raise TypeError only when the LIBRARY breaks the callback contract (integer index, string placeholder, integer positions)',
                'repeat counts are bounded (single digit alphabet in the enumeration, maxRepeat <= 300 in the other workloads) and lorem word counts < 10^5: time and '
                'memory proportional to a count are not what is measured. Nesting is driven to 120 levels in D1; 400-2500 levels are D2 (open finding: RecursionError)',
                'termination is decided on logical steps (20M line events), never on wall clock']
@@ -27,7 +28,26 @@ REQUIRED_MONITORS = ['oracle:exception-type', 'oracle:error-position', 'terminat
 BEM = {'bem.enabled': True}
 CMT = {'comment.enabled': True, 'comment.before': '<!-- [#ID][.CLASS] [FOO] -->'}
 USER_MARKUP_SNIPPETS = {'vs': 'x-v[a b=c]>x-w', 'vt': '{text ${1}}', 'vr': 'vr.x'}
+# legal-looking tables a user may well write: empty alternatives, a bare colon, blanks, upper case, digits in the property
+SLOPPY_CSS_SNIPPETS = {'foo': 'bar:a|', 'sb': 'bar:|a', 'sc': 'bar:a||b', 'sd': 'bar:', 'se': 'bar : a | b ', 'sf': 'Bar:a', 'sg': 'bar2:a', 'sh': '', 'si': ' ', 'sj': 'bar:a;b',
+                       'sk': '|', 'sl': 'bar:${1}|${2:x}', 'sm': 'bar:"a|b"|c', 'sn': ':a', 'p': 'padding:1 2|'}
 USER_CSS_SNIPPETS = {'foo': 'bar:10|20', 'baz': '${1} x ${2:y}', 'q': 'quux:a(1, 2)|b', 'p': 'padding:1 2'}
+def strict_field(index, placeholder, **kw):
+    "a consumer that relies on the callback contract: an integer index, a string placeholder, integer positions"
+    if not isinstance(index, int) or isinstance(index, bool) or not isinstance(placeholder, str):
+        raise TypeError('output.field called with index=%r placeholder=%r' % (index, placeholder))
+    if not all(isinstance(kw.get(k), int) for k in ('offset', 'line', 'column')):
+        raise TypeError('output.field called with positions %r' % (kw,))
+    return '${%d:%s}' % (index, placeholder) if placeholder else '${%d}' % index
+
+
+def strict_text(text, **kw):
+    if not isinstance(text, str) or not all(isinstance(kw.get(k), int) for k in ('offset', 'line', 'column')):
+        raise TypeError('output.text called with %r %r' % (text, kw))
+    return text
+
+
+STRICT = {'output.field': strict_field, 'output.text': strict_text}
 MARKUP_CFGS = [
     ('html', {}),
     ('jsx', {'syntax': 'jsx'}),
@@ -49,6 +69,8 @@ MARKUP_CFGS = [
     ('novars', {'variables': {}, 'snippets': USER_MARKUP_SNIPPETS}),
     ('max1', {'maxRepeat': 1, 'text': ['p', 'q', 'r']}),
     ('unknown-syntax', {'syntax': 'nosuch', 'options': {'output.format': False}}),
+    ('strict-callbacks', {'options': dict(STRICT)}),
+    ('strict-callbacks-pug', {'syntax': 'pug', 'options': dict(STRICT, **CMT), 'snippets': USER_MARKUP_SNIPPETS}),
 ]
 CSS_CFGS = [
     ('css', {'type': 'stylesheet'}),
@@ -65,10 +87,12 @@ CSS_CFGS = [
     ('noskip', {'type': 'stylesheet', 'options': {'stylesheet.skipUnmatched': False}}),
     ('minscore', {'type': 'stylesheet', 'options': {'stylesheet.fuzzySearchMinScore': 0.5}}),
     ('user-snippets', {'type': 'stylesheet', 'snippets': USER_CSS_SNIPPETS, 'cache': {}}),
+    ('strict-callbacks', {'type': 'stylesheet', 'options': dict(STRICT), 'snippets': USER_CSS_SNIPPETS}),
+    ('sloppy-user-snippets', {'type': 'stylesheet', 'snippets': SLOPPY_CSS_SNIPPETS}),
 ]
 # syntax names must be complete: every known syntax appears in at least one configuration
 ENUM_MARKUP = ['html', 'jsx', 'text-list', 'text-str', 'text-empty', 'bem-ctx', 'comment', 'pug', 'haml', 'xsl', 'vue', 'novars', 'max1']
-ENUM_CSS = ['css', 'stylus', 'value-ctx', 'section-ctx', 'json', 'noskip', 'user-snippets']
+ENUM_CSS = ['css', 'stylus', 'value-ctx', 'section-ctx', 'json', 'noskip', 'user-snippets', 'strict-callbacks']
 
 
 def describe(tier):
@@ -178,7 +202,7 @@ SEEDS_M = ['ul#nav>li.item$*4>a{Item $}', 'div>p{a ${1:foo} b}+span[title="x y" 
            'label>input', 'select>opt*2', 'c>p', 'cc:ie', 'div.b_m>.-e_m2', 'ul>li.-a', '{${lang}}', 'a{${foo}}', 'a[b=${bar}]', 'xsl', 'vare>x',
            'tm', 'div#a.b>p#c', 'a*', 'ri:a', 'html:4t', 'p>{text}+{more ${0}}', 'a/>b', 'br/*2', '$$$@-3*2', 'a$@^*2>b$@^^*2', 'vs>vt+vr',
            'ul>li*', '(x>y)*', 'loremru4', 'p{${1}}>div', 'p{a ${1}}>ul>li', 'x{${1}${2}}>b+i+em', 'p{l1\nl2}>span', 'cc:ie>div', 'c>p', '{${1}}>div', 'p.{a}', 'a[{b}]', 'x[a="b\'c"]', "x[a='b\"c']", 'a{\\}}', 'a>{b}*3', 'a/', '(a)(b)', 'a+', '.b__e_m']
-SEEDS_C = ['p10', 'm10-20', 'bd1-s#f.5', 'c#fc0', 'lg(t, #fff, #000)', 'animic', 'anim', '@kf', 'p10+m20!', 'trf:r', 'bg:n', 'fz1.5e', 'p${1:foo}',
+SEEDS_C = ['p${foo}', 'm${foo}${1:x}', 'p${a}+m${b:c}', 'foo', 'sc:b', 'sl', 'sm', 'sb+sd+se', 'sh+si+sk+sn', 'sf+sg+sj', 'p10', 'm10-20', 'bd1-s#f.5', 'c#fc0', 'lg(t, #fff, #000)', 'animic', 'anim', '@kf', 'p10+m20!', 'trf:r', 'bg:n', 'fz1.5e', 'p${1:foo}',
            '$var10', '@w20', '--custom', 'p:--x', 'c:rgb(0,0,0)', 'ff:"a b"', 'bgi:url(a.png)', 'trs:all .3s', 'p!', 'ov:h', 'd:ib', 'poa', 'm0-a',
            'foo', 'baz', 'q', 'q:a', 'animdur', 'cnt', 'bxsh', 'trf:s3d', 'gtc:r', 'lg', 'p0.0', 'c#t', 'c#.5', 'mten', 'foo2']
 
@@ -260,6 +284,17 @@ def run_shard(desc, ctx):
                               'p%se' % run, 'bd1-s#f.' + run):
                         mon.check(s, 'css', {'type': 'stylesheet'}, 'css:extreme-run')
             if desc.get('first'):
+                # every seed under the configurations whose callbacks insist on the callback contract
+                for name, cfg in MARKUP_CFGS:
+                    if 'callbacks' in name:
+                        for s in SEEDS_M + SEEDS_M_NUM:
+                            for m in (s, s + '>' + s, '(' + s + ')*2'):
+                                mon.check(m, name, dict(cfg, maxRepeat=3), 'markup:strict-callbacks')
+                for name, cfg in CSS_CFGS:
+                    if 'callbacks' in name or 'sloppy' in name:
+                        for s in SEEDS_C:
+                            for m in (s, s + '+' + s, s + '!'):
+                                mon.check(m, name, cfg, 'css:strict-callbacks')
                 for s in stretch.class_border_inputs(stretch.MARKUP_NUMBER_SLOTS):
                     if not RE_BIG_LOREM.search(s):
                         for name, cfg in (MARKUP_CFGS[0], rng.choice(MARKUP_CFGS[1:])):
@@ -334,7 +369,13 @@ def run_shard(desc, ctx):
 
 
 def replay(case, ctx):
-    Mon(ctx).check(case['input'], case['config_name'], case['config'], 'replay')
+    named = dict(MARKUP_CFGS)
+    named.update({'css:' + k: v for k, v in CSS_CFGS})
+    styl = (case['config'] or {}).get('type') == 'stylesheet'
+    cfg = named.get(('css:' if styl else '') + case['config_name'])
+    if cfg is None or 'callbacks' not in case['config_name']:
+        cfg = case['config']        # recorded configurations replay as recorded; the ones with callables are looked up by name
+    Mon(ctx).check(case['input'], case['config_name'], cfg, 'replay')
 
 
 CLASSIFIERS = {'C07-lorem-count-beyond-int-conversion-limit': _lorem_count_beyond_conversion_limit,
